@@ -767,6 +767,10 @@ def blocks(data, min_len=2, max_len=np.inf, wrap=False, digits=None, only_nonzer
     """
     data = float_to_int(data, digits=digits)
 
+    if len(data) == 0:
+        # no values means no blocks
+        return []
+
     # keep an integer range around so we can slice
     arange = np.arange(len(data))
     arange.flags["WRITEABLE"] = False
